@@ -54,6 +54,7 @@ ChiClass(m) == IF m = 4 THEN "nan" ELSE "num"      \* "nan" stands for NaN or Bi
 BestChi(m) == IF cfg.mode = "indep" THEN FitM(m).chi ELSE FitD(m)[CHOOSE i \in BestDist(FitD(m)) : TRUE].chi
 Before(m1, m2) == ChiClass(m1) = "num" /\ (ChiClass(m2) = "nan" \/ RLt(BestChi(m1), BestChi(m2)))
 PlantedFirst == NonDegenerate => \A m \in 1..NModels : m # cfg.mp => Before(cfg.mp, m)
+\* (a fact about the code's ranking, checked on the model only: C08 promises PlantedFirst, not where the dark model ends up)
 DarkLast == cfg.dark > 0 => \A m \in 1..3 : Before(m, 4)
 EmitInv == PrintT(ToJson([cfg |-> cfg, grid |-> Grid, K |-> K, src |-> Src, nondeg |-> NonDegenerate]))
 =============================================================================
